@@ -8,51 +8,44 @@ Import ListNotations.
 Local Close Scope Q_scope.
 Local Open Scope string_scope.
 
-(** a branch of positive length is cut into two equal halves that keep its support *)
-Lemma half_edge_pos e :
-  (0 < elen e)%Q ->
-  (elen (half_edge e) == elen e * (1 # 2))%Q /\ esup (half_edge e) = esup e /\
+(** a branch that has a length is cut into two equal halves (a length 0 included); the support
+    is copied on both halves *)
+Lemma half_edge_len e :
+  qeqb (elen e) nilv = false ->
+  (elen (half_edge e) == elen e * (1 # 2))%Q /\
   (elen (half_edge e) + elen (half_edge e) == elen e)%Q.
 Proof.
-  intros H. unfold half_edge, qltb.
-  assert (E : Qle_bool (elen e) 0 = false).
-  { destruct (Qle_bool (elen e) 0) eqn:E; auto. apply Qle_bool_iff in E.
-    exfalso. apply (Qlt_irrefl 0). eapply Qlt_le_trans; eauto. }
-  rewrite E. simpl. unfold qhalf. repeat split; try reflexivity. field.
+  intros H. unfold half_edge. cbn [elen]. rewrite H. unfold qhalf. split; [reflexivity | field].
 Qed.
 
-(** a branch of length 0 (or less) is replaced by two branches WITHOUT length and support *)
-Lemma half_edge_nonpos e : (elen e <= 0)%Q -> half_edge e = e0.
+Lemma half_edge_sup e : (esup (half_edge e) == esup e)%Q.
 Proof.
-  intros H. unfold half_edge, qltb. apply Qle_bool_iff in H. now rewrite H.
+  unfold half_edge. cbn [esup]. destruct (qeqb (esup e) nilv) eqn:E; [|reflexivity].
+  unfold qeqb in E. apply Qeq_bool_iff in E. now symmetry.
 Qed.
+
+(** a branch without length gives two branches without length *)
+Lemma half_edge_nil e : qeqb (elen e) nilv = true -> elen (half_edge e) = nilv.
+Proof. intros H. unfold half_edge. cbn [elen]. now rewrite H. Qed.
 
 Definition Es (l s : Q) : einfo := mkE l s nilv [].
 
-(** ((a:1,b:1)0.8:0,c:1,d:1);  rooted on {a,b}: the branch of length 0 and support 4/5 comes
-    back as two branches with neither length nor support *)
+(** ((a:1,b:1)0.8:0,c:1,d:1);  rooted on {a,b}: the branch of length 0 and support 4/5 gives two
+    branches of length 0 and support 4/5 (before the repair: neither length nor support) *)
 Definition og_w0 : utree :=
   UNode "" [] [Some (Es 0%Q (4 # 5)%Q, UNode "" [] [None; Some (Ez 1%Q, tipn "a"); Some (Ez 1%Q, tipn "b")]);
                Some (Ez 1%Q, tipn "c"); Some (Ez 1%Q, tipn "d")].
 
-Theorem outgroup_zero_cut_refuted :
-  exists t names t' e,
-    wf t = true /\ 3 <= degree t /\ NoDup (leaves t) /\
-    reroot_outgroup false true t names = Ok t' /\
-    side_of_e (unroot t) (group (unroot t) names) e /\
-    (elen e == 0)%Q /\ (esup e == 4 # 5)%Q /\
-    Forall (fun p => (elen (fst p) == -1)%Q /\ (esup (fst p) == -1)%Q) (kids t') /\
-    ~ Forall (fun p => (elen (fst p) == elen e * (1 # 2))%Q) (kids t').
+Lemma outgroup_zero_cut_example :
+  exists t',
+    wf og_w0 = true /\ 3 <= degree og_w0 /\ NoDup (leaves og_w0) /\
+    reroot_outgroup false true og_w0 ["a"; "b"] = Ok t' /\
+    Forall (fun p => (elen (fst p) == 0)%Q /\ (esup (fst p) == 4 # 5)%Q) (kids t').
 Proof.
-  exists og_w0, ["a"; "b"].
-  destruct (reroot_outgroup false true og_w0 ["a"; "b"]) as [t'|] eqn:E; [|vm_compute in E; discriminate].
-  exists t', (Es 0%Q (4 # 5)%Q). vm_compute in E. inversion E; subst t'. clear E.
-  repeat split.
-  - vm_compute; lia.
+  eexists. split; [reflexivity|]. split; [vm_compute; lia|]. split; [|split].
   - vm_compute. repeat constructor; simpl; intuition discriminate.
-  - exists ["a"; "b"], false. split; [vm_compute; auto|]. left. vm_compute. reflexivity.
-  - vm_compute. repeat constructor.
-  - intros H. inversion H as [|x l H1 _]. vm_compute in H1. discriminate.
+  - vm_compute. reflexivity.
+  - repeat constructor; vm_compute; reflexivity.
 Qed.
 
 (** ((a:1,b:1)0.8:2,c:1,d:1);  the hypotheses of the theorems hold and the functions act *)
